@@ -1370,8 +1370,9 @@ impl TestTextSelection for TextSelectionSet {
             return false;
         }
         match operator {
-            TextSelectionOperator::Equals {
-                all: false,
+            TextSelectionOperator::Equals { negate: false, .. }
+            | TextSelectionOperator::InSet {
+                all: true,
                 negate: false,
             } => {
                 //ALL of the items in this set must match with ANY item in the otherset
@@ -1492,10 +1493,7 @@ impl TestTextSelection for TextSelectionSet {
                 .leftmost()
                 .unwrap()
                 .test(operator, reftextsel, resource),
-            TextSelectionOperator::SameRange {
-                all: true,
-                negate: false,
-            } => {
+            TextSelectionOperator::SameRange { negate: false, .. } => {
                 self.leftmost()
                     .unwrap()
                     .test(operator, reftextsel, resource)
@@ -1516,10 +1514,10 @@ impl TestTextSelection for TextSelectionSet {
             | TextSelectionOperator::Succeeds { negate: true, .. }
             | TextSelectionOperator::SameBegin { negate: true, .. }
             | TextSelectionOperator::SameEnd { negate: true, .. }
-            | TextSelectionOperator::InSet { negate: true, .. } => {
+            | TextSelectionOperator::InSet { negate: true, .. }
+            | TextSelectionOperator::SameRange { negate: true, .. } => {
                 !self.test(&operator.toggle_negate(), reftextsel, resource)
             }
-            _ => unreachable!("unknown operator+modifier combination"),
         }
     }
 
@@ -1617,6 +1615,14 @@ impl TestTextSelection for TextSelectionSet {
                 all: true,
                 negate: false,
                 ..
+            }
+            | TextSelectionOperator::Equals {
+                all: true,
+                negate: false,
+            }
+            | TextSelectionOperator::InSet {
+                all: true,
+                negate: false,
             } => {
                 //all of the items in this set must match with all item in the otherset (this code isn't different from the previous one, the different code happens in the delegated test() method
                 for item in self.iter() {
@@ -1661,10 +1667,7 @@ impl TestTextSelection for TextSelectionSet {
                 .leftmost()
                 .unwrap()
                 .test_set(operator, refset, resource),
-            TextSelectionOperator::SameRange {
-                all: true,
-                negate: false,
-            } => {
+            TextSelectionOperator::SameRange { negate: false, .. } => {
                 self.leftmost()
                     .unwrap()
                     .test_set(operator, refset, resource)
@@ -1685,10 +1688,10 @@ impl TestTextSelection for TextSelectionSet {
             | TextSelectionOperator::Succeeds { negate: true, .. }
             | TextSelectionOperator::SameBegin { negate: true, .. }
             | TextSelectionOperator::SameEnd { negate: true, .. }
-            | TextSelectionOperator::InSet { negate: true, .. } => {
+            | TextSelectionOperator::InSet { negate: true, .. }
+            | TextSelectionOperator::SameRange { negate: true, .. } => {
                 !self.test_set(&operator.toggle_negate(), refset, resource)
             }
-            _ => unreachable!("unknown operator+modifier combination"),
         }
     }
 }
@@ -1815,10 +1818,10 @@ impl TestTextSelection for TextSelection {
             | TextSelectionOperator::Succeeds { negate: true, .. }
             | TextSelectionOperator::SameBegin { negate: true, .. }
             | TextSelectionOperator::SameEnd { negate: true, .. }
-            | TextSelectionOperator::InSet { negate: true, .. } => {
+            | TextSelectionOperator::InSet { negate: true, .. }
+            | TextSelectionOperator::SameRange { negate: true, .. } => {
                 !self.test(&operator.toggle_negate(), reftextsel, resource)
             }
-            _ => unreachable!("unknown operator+modifier combination"),
         }
     }
     /// This method is called to test whether a specific spatial relation (as expressed by the
@@ -1910,6 +1913,14 @@ impl TestTextSelection for TextSelection {
                 all: true,
                 negate: false,
                 ..
+            }
+            | TextSelectionOperator::Equals {
+                all: true,
+                negate: false,
+            }
+            | TextSelectionOperator::InSet {
+                all: true,
+                negate: false,
             } => {
                 if refset.is_empty() {
                     return false;
@@ -2005,10 +2016,7 @@ impl TestTextSelection for TextSelection {
                 }
                 self.end == refset.rightmost().unwrap().end()
             }
-            TextSelectionOperator::SameRange {
-                all: true,
-                negate: false,
-            } => {
+            TextSelectionOperator::SameRange { negate: false, .. } => {
                 if refset.is_empty() {
                     return false;
                 }
@@ -2027,10 +2035,10 @@ impl TestTextSelection for TextSelection {
             | TextSelectionOperator::Succeeds { negate: true, .. }
             | TextSelectionOperator::SameBegin { negate: true, .. }
             | TextSelectionOperator::SameEnd { negate: true, .. }
-            | TextSelectionOperator::InSet { negate: true, .. } => {
+            | TextSelectionOperator::InSet { negate: true, .. }
+            | TextSelectionOperator::SameRange { negate: true, .. } => {
                 !self.test_set(&operator.toggle_negate(), refset, resource)
             }
-            _ => unreachable!("unknown operator+modifier combination"),
         }
     }
 }
